@@ -308,6 +308,13 @@ def cases(tier, shard, nshards):
                            {"k": "vv", "op": op}, iso=False)
                 yield Case(["%s %s V(%s)" % (vsrc, op, ", ".join(ys[:2]))], {"k": "vlen", "op": op}, iso=False)
                 yield Case(["V(%s) %s %s" % (", ".join(ys[:2]), op, vsrc)], {"k": "vlen", "op": op}, iso=False)
+                # lengths that differ by two, and an empty side
+                yield Case(["%s %s V(%s)" % (vsrc, op, ys[0])], {"k": "vlen", "op": op}, iso=False)
+                yield Case(["V(%s) %s %s" % (ys[0], op, vsrc)], {"k": "vlen", "op": op}, iso=False)
+                yield Case(["%s %s V()" % (vsrc, op)], {"k": "vlen", "op": op}, iso=False)
+                yield Case(["V() %s %s" % (op, vsrc)], {"k": "vlen", "op": op}, iso=False)
+                yield Case(["V(%s) %s V()" % (ys[0], op)], {"k": "vlen", "op": op}, iso=False)
+                yield Case(["V() %s V(%s)" % (op, ys[0])], {"k": "vlen", "op": op}, iso=False)
 
 
 def nontrivial(case, rs):
